@@ -29,35 +29,90 @@ def isBoolLit : Expr → Bool
   | .bool .. => true
   | _ => false
 
+/-- the condition of an `if` is the literal `true` (the compiler then emits the body only) -/
+def isTrueLit : Expr → Bool
+  | .bool _ true => true
+  | _ => false
+
+/-- the condition of an `if` is the literal `false` (the compiler then emits a JUMP and the else part only) -/
+def isFalseLit : Expr → Bool
+  | .bool _ false => true
+  | _ => false
+
+/-- conditions of `if`: the literals `true` / `false`, or an expression of the fragment that is not a boolean literal -/
+def condF (B : List String) (c : Expr) : Bool := isTrueLit c || isFalseLit c || (ExprF (bnd B) c && !isBoolLit c)
+
+/-- one specification of a `var` declaration -/
+abbrev Spec := Option Nat × List (Pos × String) × List (Option Expr)
+
+def specF (B : List String) : Spec → Bool
+  | (_, [(_, x)], [some e]) => ExprF (bnd B) e && x != "_"
+  | (_, [(_, x)], []) => x != "_"
+  | _ => false
+
+def defsSpec (B : List String) : Spec → List String
+  | (_, [(_, x)], _) => x :: B
+  | _ => B
+
+def specsF : List String → List Spec → Bool
+  | _, [] => true
+  | B, sp :: r => specF B sp && specsF (defsSpec B sp) r
+
+def defsSpecs : List String → List Spec → List String
+  | B, [] => B
+  | B, sp :: r => defsSpecs (defsSpec B sp) r
+
+def needSpec : Spec → Nat
+  | (_, _, [some e]) => need e + 1
+  | _ => 2
+
+def needSpecs : List Spec → Nat
+  | [] => 0
+  | sp :: r => max (needSpec sp) (needSpecs r)
+
+/-- `var` declarations of the slice: a non-empty group of specifications, each with one name, with a value or without -/
+def declF (B : List String) (tok : Nat) (specs : List Spec) : Bool := tok == tVar && !specs.isEmpty && specsF B specs
+
 /-- the names in scope behind a statement -/
 def defsOf (B : List String) : Stmt → List String
   | .assign _ tok [.ident _ x] _ => if tok == tDefine then x :: B else B
-  | .declValue _ _ [(_, [(_, x)], _)] => x :: B
+  | .declValue _ _ specs => defsSpecs B specs
   | _ => B
 
+/-- `x++` / `x--` on a name in scope -/
+def incF (B : List String) : Expr → Bool
+  | .ident _ x => B.contains x
+  | _ => false
+
 mutual
-/-- statements of the slice: `e;`, `x := e`, `var x = e`, `x = e`, `x op= e` (uncaptured locals), blocks,
-    `if c { … }`, `if c { … } else { … }`, `else if`, `return`, `return e`, the empty statement -/
+/-- statements of the slice: `e;`, `x := e`, `var x = e`, `var x`, `var ( … )` groups of them, `x = e`, `x op= e`, `x++`, `x--` (uncaptured locals),
+    blocks, `if c { … }`, `if c { … } else { … }`, `else if` (also with the literal `true` as condition), `if init; c { … }` (init a statement of the slice), `return`,
+    `return e`, the empty statement -/
 def StmtF : List String → Stmt → Bool
   | _, .empty _ => true
   | B, .expr _ e => ExprF (bnd B) e
+  | B, .incdec _ _ _ e => incF B e
   | B, .assign _ tok [.ident _ x] [r] =>
       ExprF (bnd B) r &&
       (if tok == tDefine then x != "_"
        else if tok == tAssign then B.contains x
        else (Compile.compoundOp tok).isSome && B.contains x)
-  | B, .declValue _ tok [(_, [(_, x)], [some e])] => ExprF (bnd B) e && tok == tVar && x != "_"
+  | B, .declValue _ tok specs => declF B tok specs
   | B, .block _ body => StmtsF B body
-  | B, .if_ _ none c _ body none => ExprF (bnd B) c && !isBoolLit c && StmtsF B body
-  | B, .if_ _ none c _ body (some e) => ExprF (bnd B) c && !isBoolLit c && StmtsF B body && ElseF B e
+  | B, .if_ _ none c _ body none => condF B c && StmtsF B body
+  | B, .if_ _ none c _ body (some e) => condF B c && StmtsF B body && ElseF B e
+  | B, .if_ _ (some i) c _ body none =>
+      StmtF B i && (ExprF (bnd (defsOf B i)) c && !isBoolLit c) && StmtsF (defsOf B i) body
+  | B, .if_ _ (some i) c _ body (some e) =>
+      StmtF B i && (ExprF (bnd (defsOf B i)) c && !isBoolLit c) && StmtsF (defsOf B i) body && ElseF (defsOf B i) e
   | _, .return_ _ none => true
   | B, .return_ _ (some e) => ExprF (bnd B) e
   | _, _ => false
 /-- what may follow `else`: a block or another `if` -/
 def ElseF : List String → Stmt → Bool
   | B, .block _ body => StmtsF B body
-  | B, .if_ _ none c _ body none => ExprF (bnd B) c && !isBoolLit c && StmtsF B body
-  | B, .if_ _ none c _ body (some e) => ExprF (bnd B) c && !isBoolLit c && StmtsF B body && ElseF B e
+  | B, .if_ _ none c _ body none => condF B c && StmtsF B body
+  | B, .if_ _ none c _ body (some e) => condF B c && StmtsF B body && ElseF B e
   | _, _ => false
 def StmtsF : List String → List Stmt → Bool
   | _, [] => true
@@ -73,8 +128,11 @@ mutual
 def needS : Stmt → Nat
   | .expr _ e => need e
   | .assign _ _ _ [r] => need r + 1
-  | .declValue _ _ [(_, _, [some e])] => need e + 1
+  | .declValue _ _ specs => needSpecs specs
+  | .incdec _ _ _ _ => 2
   | .block _ body => needL body
+  | .if_ _ (some i) c _ body none => max (needS i) (max (need c) (needL body))
+  | .if_ _ (some i) c _ body (some e) => max (needS i) (max (need c) (max (needL body) (needS e)))
   | .if_ _ _ c _ body none => max (need c) (needL body)
   | .if_ _ _ c _ body (some e) => max (need c) (max (needL body) (needS e))
   | .return_ _ (some e) => need e
